@@ -54,5 +54,11 @@ out = dict(property=meta.get("property"), summary=meta.get("summary"), needs_to_
                           demo_fails_with_change=res.get("demo_fails_with_change"), agent_tests_run=meta.get("tests_run")),
            what_i_ran=["demo on original tree", "git apply patch.diff", "go build ./...", "demo with patch"] + ["VERIF_REPO=<patched worktree> bin/check %s" % p for p in props],
            checks=res.get("checks"))
+try:   # a note written by hand (e.g. "superseded by repair ...") survives re-tests
+    old_note = json.load(open(os.path.join(dst, "meta.json"))).get("note")
+    if old_note:
+        out["note"] = old_note
+except Exception:
+    pass
 json.dump(out, open(os.path.join(dst, "meta.json"), "w"), indent=1)
 print(name, json.dumps(out["confirmed"]), json.dumps(out["checks"]))
